@@ -24,14 +24,17 @@ PROPS = {
     },
     "C04": {
         "level": "proof",
-        "verus": ["limits"],
-        "frame": ["only_lexer_next_makes_limit_errors"],
+        "verus": ["limits", "parser_core"],
+        "frame": ["only_lexer_next_makes_limit_errors", "grammar_uses_primitives_only"],
         "explanation": "Verus proves the LimitTracker contract (reached <=> current+1 > limit; balanced current; high-water mark) and the token-limit "
-                       "contract of Lexer::next: at most `limit` calls of Cursor::advance, a limit error item iff the limit is exhausted and the lexer is "
-                       "not finished, after which the lexer is finished and returns None forever.",
-        "not_decided": ["global 'recursion-limit error iff nesting depth exceeds r' over the whole grammar (closure combinators)",
-                        "reached-figures copy in apollo_compiler::parser (generic over a parse closure)",
-                        "Cursor::advance itself (external_body: one call = one lexer item, never a limit error; second half checked syntactically)"],
+                       "contract of Lexer::next (at most `limit` calls of Cursor::advance; a limit error item iff the limit is exhausted, after which the lexer "
+                       "is finished and returns None forever); on the parser primitives and the recursion-guarded grammar functions (ty::parse, selection_set, "
+                       "field_set, object_field): the tree text only grows at the end and stays a prefix of the input, errors are only appended and frozen once "
+                       "the token limit was hit (no error after the token-limit error), recursion bookkeeping is balanced and never exceeds the limit.",
+        "not_decided": ["global 'recursion-limit error iff nesting depth exceeds r' over the whole grammar (list_value and the definitions are closure-driven; not extracted)",
+                        "reached-figures copy in apollo_compiler::parser::parse_common (generic over a parse closure; not extracted)",
+                        "Cursor::advance itself (external_body: one call = one lexer item, never a limit error; second half checked syntactically)",
+                        "'limit error iff the unlimited token stream is longer than n' needs the unlimited stream as a ghost; only the per-call iff is proved"],
     },
     "C31": {
         "level": "proof",
@@ -108,5 +111,40 @@ PROPS = {
                        "and the parsed component names are exactly the corresponding substrings (so printing gives back the input: Display is a format string of those pieces).",
         "not_decided": ["strings longer than the bound (the accepting paths of Name.Name(Name:) need length >= 7 and are reached only in the thorough tier, where CBMC may time out)",
                         "bytes outside the class alphabet (covered for names by C10's unbounded Name proof)", "Display impls", "lookup in a schema (IndexMap)"],
+    },
+    "C01": {
+        "level": "proof",
+        "verus": ["parser_core", "limits"],
+        "frame": ["grammar_uses_primitives_only"],
+        "explanation": "PARTIAL. Verus proves on the extracted parser primitives (17) and the token-consuming grammar functions (ty, standalone_ty, ty::parse, named_type, "
+                       "selection_set, field_set, object_field) and entry points parse_type / parse_selection_set: no panic (pop's expect is unreachable: every caller has a "
+                       "look-ahead token; push_ignored's unreachable!() is unreachable by the struct invariant; unreachable!() arms of the entry points; no arithmetic overflow "
+                       "in LimitTracker); termination (next_token, skip_ignored and the recursion of ty::parse decrease a lexer measure); recursion depth of the extracted recursive "
+                       "functions is bounded by the recursion limit; recursion bookkeeping is balanced (document() asserts it is).",
+        "assumptions": ['the assumed Lexer contract in the parser_core prelude (items carry the remaining text in order; a measure decreases per item; None only after the limit or at the end) -- C03, not proved', 'Name tokens produced by the lexer satisfy the Name grammar, so grammar::name::validate_name never reports (C03, not proved)', "the ~55 grammar functions that are not extracted keep the primitives' preconditions (they peek before they consume) and reach tokens only through the primitives (second half: frame check grammar_uses_primitives_only)", 'rowan GreenNodeBuilder: token() appends text, start/finish/wrap add none; Drop of NodeGuard has no spec', 'recursion limit < usize::MAX'],
+        "not_decided": ["the lexer state machine (Cursor::advance): panics / termination there are not covered",
+                        "the ~55 grammar functions that are not extracted, and the closure combinators peek_while / peek_while_kind / parse_separated_list",
+                        "rowan's own assertions (single root: was the panic fixed in d0c8925; not visible to a contract), actual stack size per frame", "apollo_compiler::parser wrappers"],
+    },
+    "C02": {
+        "level": "proof",
+        "verus": ["parser_core"],
+        "frame": ["grammar_uses_primitives_only", "document_ends_with_flush"],
+        "explanation": "PARTIAL, one known finding. Conserved quantity all_text = tree text + queued tokens + look-ahead token + unread input: Verus proves every parser primitive "
+                       "and every extracted grammar function conserves it in order (nothing lost, nothing duplicated, nothing reordered), push_ignored flushes the queue, and "
+                       "lemma_lossless derives tree text == input from conservation plus document()'s final state. ty::parse violates it at one exit (known finding: the token "
+                       "after `[` is dropped when no type starts there).",
+        "assumptions": ['the assumed Lexer contract in the parser_core prelude (items carry the remaining text in order; a measure decreases per item; None only after the limit or at the end) -- C03, not proved', 'Name tokens produced by the lexer satisfy the Name grammar, so grammar::name::validate_name never reports (C03, not proved)', "the ~55 grammar functions that are not extracted keep the primitives' preconditions (they peek before they consume) and reach tokens only through the primitives (second half: frame check grammar_uses_primitives_only)", 'rowan GreenNodeBuilder: token() appends text, start/finish/wrap add none; Drop of NodeGuard has no spec', 'recursion limit < usize::MAX'],
+        "not_decided": ["UTF-8 boundaries of token ranges (token data are &str slices: Rust's type invariant, not proved)", "document() and the unextracted grammar functions themselves", "the lexer half of losslessness (C03)"],
+    },
+    "C07": {
+        "level": "proof",
+        "verus": ["parser_core"],
+        "frame": ["grammar_uses_primitives_only"],
+        "explanation": "PARTIAL (end-of-input clause). Verus proves for parse_type and parse_selection_set: after the type / selection set, expect_end_of_input skips ignored tokens and "
+                       "the returned tree has no error only if the look-ahead token is None or EOF, i.e. nothing but ignored tokens was left; the tree reports exactly the parser's errors.",
+        "assumptions": ['the assumed Lexer contract in the parser_core prelude (items carry the remaining text in order; a measure decreases per item; None only after the limit or at the end) -- C03, not proved', 'Name tokens produced by the lexer satisfy the Name grammar, so grammar::name::validate_name never reports (C03, not proved)', "the ~55 grammar functions that are not extracted keep the primitives' preconditions (they peek before they consume) and reach tokens only through the primitives (second half: frame check grammar_uses_primitives_only)", 'rowan GreenNodeBuilder: token() appends text, start/finish/wrap add none; Drop of NodeGuard has no spec', 'recursion limit < usize::MAX'],
+        "not_decided": ["that the consumed tokens form exactly ONE type reference / selection set (needs a grammar-membership ghost; the selection grammar runs through closures)",
+                        "leading tokens (the type entry point drops leading ignored tokens only)", "the compiler-side mapping syntax error => Err (apollo_compiler::parser::parse_type, parse_field_set)"],
     },
 }
